@@ -46,6 +46,7 @@ type iterState struct {
 }
 
 type loopCtx struct {
+	errAtEntry map[string]bool // errSeen sites recorded before the loop was entered
 	measure   string
 	hasMeas   bool
 	allocAt   string
@@ -82,6 +83,9 @@ type State struct {
 	// the defining phi / allocation / debug reference is executed)
 	names map[string]nameBind
 	pendingTrig [][2]string // witness terms met while instantiating (registered afterwards, depth-limited)
+	// errSeen: the errors callees reported on this path since the last cut
+	// (site -> "that error was nil"); see Exec.errDropped
+	errSeen map[string]string
 }
 
 // nameBind: the current value of a source variable, or (cell) a pointer to the
@@ -129,6 +133,12 @@ func (s *State) clone() *State {
 		n.loops[k] = v
 	}
 	n.defers = s.defers[:len(s.defers):len(s.defers)]
+	if s.errSeen != nil {
+		n.errSeen = make(map[string]string, len(s.errSeen))
+		for k, v := range s.errSeen {
+			n.errSeen[k] = v
+		}
+	}
 	n.univ = s.cloneUniv()
 	n.guards = s.guards[:len(s.guards):len(s.guards)]
 	if s.terms != nil {
@@ -153,6 +163,23 @@ func (s *State) assume(t string) {
 
 func (s *State) check(ob *Oblig, t string) {
 	ob.Path = s.npath
+	// an obligation the contract declares out of reach ("unchecked <kind@site>"):
+	// assumed, and listed as such in the report
+	if x := s.x; x != nil {
+		con := x.con
+		if x.rootCon != nil {
+			con = x.rootCon
+		}
+		if con != nil {
+			for _, u := range con.Unchecked {
+				if strings.HasSuffix(ob.ID, "/"+u) {
+					x.note("ASSUMED by the contract (unchecked): " + ob.ID + " — " + ob.Desc)
+					s.assume(t)
+					return
+				}
+			}
+		}
+	}
 	s.events = append(s.events, event{kind: evCheck, term: t, ob: ob})
 }
 
